@@ -42,7 +42,7 @@ def cases_for(res, rng):
     for i in range(nrand):
         K = random_structure(rng, 5)
         cases.append((K, F.rand_ctls_state(rng, rng.choice([3, 4, 5]), max_temporal=3, qdepth=2),
-                      ('text', 'obj', 'short', 'obj')[i % 4]))
+                      ('text', 'obj', 'short', 'dag')[i % 4]))
     # scale: larger structures / deeper quantifier nesting / wide n-ary
     for i in range(120 if quick else 1200):
         K = big_structure(rng, 7, 9)
